@@ -180,7 +180,7 @@ def compare_segment(iseg, rseg, rel=1e-9, arc_grid=16):
         ref = arcspec.ArcRef(rseg.start, rx, ry, rot, fa, fs, rseg.end)
         lo, hi = min(abs(rx), abs(ry)), max(abs(rx), abs(ry))
         chord = math.hypot(rseg.start[0] - rseg.end[0], rseg.start[1] - rseg.end[1])
-        if ref.kind == "arc" and (hi > 1e4 * lo or hi > 1e6 * chord):
+        if ref.kind == "arc" and (hi > 1e4 * lo or hi > 1e6 * chord or abs(rot) > 1e6):
             pass   # radii ratio outside the properties' range (1e-3..1e3): endpoints only (float conditioning)
         elif ref.kind == "arc":
             pts = [pt(iseg.point(i / float(arc_grid))) for i in range(arc_grid + 1)]
